@@ -153,6 +153,25 @@ CHECKS = {
         ],
         "floors": {"quick": {"semaphore": 5000, "maxjobs": 2000, "systemreqs": 10000}},
     },
+    "C04": {
+        "level": "exploration",
+        "engine": "E1",
+        "needs_bins": [],
+        "technique": "property-based testing (rapid): generated file-passing programs x VDR mode x generated schedule on the in-process engine with stages that write real files; validity predicate at every job start / finish and at completion (no model of what gets deleted)",
+        "level_text": ("Programs of the C01 generator with file-rich signatures (file, path, user file types, strings and untyped maps holding paths, inside structs / arrays / typed maps, "
+                       "through sub-pipelines, several consumers, map calls) and volatile / volatile=strict / volatile=false / retain annotations on stages, calls and pipelines x vdr mode "
+                       "(rolling, post, strict, disable) x schedules with 0-450us pauses so that the asynchronous cleanup runs between actions.  Stages write each file they return under their own "
+                       "files directory (some paths are returned but never written, some files are written but never returned).  Oracle: every file named anywhere in a job's arguments (and, for "
+                       "joins, chunk outputs) exists with the producer's content when the job is handed to the job manager and again when it finishes; every file named by the top-level outputs, "
+                       "a stage retain or a pipeline retain on a stage call exists with its content after the final VDR pass and after post-processing. Exploration."),
+        "level_note": ("The goroutines inside storage.go are given time to run (yield / sleep draws) but their interleaving is not owned; jobs do not run concurrently with the scheduler thread "
+                       "in E1.  Map calls stay inside the envelope of known finding C01/map-calls-beyond-simple-envelope."),
+        "rule": ("rapid program + vdr mode + schedule; non-trivial: VDR enabled, >= 1 stage file was deleted during the run and >= 1 job had a file in its arguments; distinct by hash(program, mode, schedule); "
+                 "classes: mode, consumer-of-file, late-consumer (started > 6 harness actions after the producer finished), top-output-names-file, retained-file, files-deleted."),
+        "assumptions": _SEM_ASSUME + ["stages obey the contract: a returned path names a file the job wrote itself under its own files directory"],
+        "units": [U("props/run", "TestRunFiles", (600, 10), (12000, 10), env={"VERIF_ONLY": "C04"})],
+        "floors": {"quick": {"consumer-of-file": 500, "late-consumer": 50, "files-deleted": 500, "top-output-names-file": 300, "retained-file": 100, "mode:strict": 300, "mode:rolling": 300, "mode:post": 100}},
+    },
     "C07": {
         "level": "exploration",
         "engine": "E1",
@@ -212,6 +231,39 @@ CHECKS = {
         ],
         "floors": {"quick": {"script:fake_remote": 500, "script:sge": 200, "quote": 10000}},
     },
+    "C13": {
+        "level": "exploration",
+        "engine": "E1",
+        "needs_bins": [],
+        "technique": "property-based testing (rapid): generated programs whose stages write real files, run to completion on the in-process engine, VDR + PostProcess, then outs/ and the rewritten top-level _outs compared with an independently derived layout (parameter name, type, explicit out name, zero-padded index, map key)",
+        "level_text": ("Top-level output signatures drawn from the generated universe: file, path, user file types (extension), arrays (1-2 dimensions) and typed maps of files, structs and "
+                       "stage/pipeline output structs containing files, nested combinations, keys that cannot be directory names, null values, paths returned but never written, several outputs "
+                       "naming one file.  Oracle: the post-processed _outs parses, has the same keys / lengths as before, every non-file value is unchanged, every file leaf is a path below outs/ "
+                       "that holds exactly what the stage wrote, the location derived independently from the parameter exists with that content, never-written files are null, no two leaves "
+                       "belong at one path. Exploration."),
+        "level_note": "Mapped top-level calls, explicit out names, symlink outputs and outputs outside the pipestance are not generated yet.",
+        "rule": "as C04; non-trivial: >= 1 non-null file leaf nested in a struct / array / typed map; classes: file-leaf, nested-file-leaf.",
+        "assumptions": _SEM_ASSUME,
+        "units": [U("props/run", "TestRunFiles", (600, 10), (12000, 10), env={"VERIF_ONLY": "C13"})],
+        "floors": {"quick": {"file-leaf": 500, "nested-file-leaf": 300}},
+    },
+    "C14": {
+        "level": "exploration",
+        "engine": "E1",
+        "needs_bins": [],
+        "technique": "property-based testing (rapid): the C04 runs with a ledger of everything each job wrote; invariants over the directory tree and the _vdrkill reports at completion",
+        "level_text": ("As C04, plus files no output names and temporary files per job.  Oracle after the final VDR pass (vdr enabled): no job's tmp directory holds anything; no file written "
+                       "by a chunk of a splitting stage is left; no file written by the main/join job of a volatile call (call volatile, stage volatile=strict, or strict mode without "
+                       "volatile=false) is left unless the stage output naming it is statically bound by a top-level output or a retain (judged per output parameter, the granularity the runtime "
+                       "tracks); every path listed in any _vdrkill is gone and lies inside the pipestance; every written entry that is gone is covered by a reported path; each fork's report "
+                       "count and size equal the number and lstat sizes (recorded when the job finished) of the entries written under that fork that are gone; a sentinel directory next to "
+                       "the pipestance is byte-identical. Exploration."),
+        "level_note": "Interruption and restart between partial and final cleanup is part of the C05 machinery (not built yet).",
+        "rule": "as C04; non-trivial: VDR enabled, >= 1 written entry removed and >= 1 file kept by a top-level output or retain; classes: mode, must-go-files, kept-and-removed.",
+        "assumptions": _SEM_ASSUME + ["stages obey the contract: a returned path names a file the job wrote itself under its own files directory"],
+        "units": [U("props/run", "TestRunFiles", (600, 10), (12000, 10), env={"VERIF_ONLY": "C14"})],
+        "floors": {"quick": {"must-go-files": 500, "kept-and-removed": 300, "mode:strict": 300, "mode:rolling": 300, "mode:post": 100}},
+    },
     "C15": {
         "level": "exploration",
         "engine": "pure",
@@ -239,7 +291,7 @@ CHECKS = {
                        "output struct is a parameter type.  Three classes are excluded as known findings (wildcard-bound inputs, output edits through struct values, map call losing its only split)."),
         "rule": "rapid program generator x edit kind x target; non-trivial: the edit changed >= 2 places of the file; distinct by hash(program text, edit, callable, parameter); classes: edit kind, multi-site.",
         "assumptions": ["the reference for renames is the generator's IR with the identifier replaced at its declaration, at every call/binding/reference and where the callable's name is used as a type"],
-        "units": [U("props/lang", "^TestC19Refactor$", (3000, 10), (60000, 12))],
+        "units": [U("props/lang", "TestC19Refactor", (3000, 10), (60000, 12))],
         "floors": {"quick": {"edit:rename-callable": 3000, "edit:rename-input": 1000, "edit:rename-output": 500, "edit:remove-input": 1000, "edit:remove-output": 300, "edit:remove-unused": 2000, "multi-site": 5000}},
     },
     "C16": {
